@@ -398,8 +398,11 @@ class InProtocolBase(ProtocolMixin):
         else:
             microsec = min(999999, int(round(float(microsec) * 1e6)))
 
-        return time(int(fields['hr']), int(fields['min']),
+        try:
+            return time(int(fields['hr']), int(fields['min']),
                                                    int(fields['sec']), microsec)
+        except ValueError:  # e.g. hour 24
+            raise ValidationError(string)
 
     def time_from_bytes(self, cls, string):
         if isinstance(string, six.binary_type):
@@ -423,7 +426,10 @@ class InProtocolBase(ProtocolMixin):
                 month = int(match.group('month'))
                 day = int(match.group('day'))
 
-                return date(year, month, day)
+                try:
+                    return date(year, month, day)
+                except ValueError:  # e.g. month 13
+                    raise ValidationError(string)
 
             raise ValidationError(string)
 
@@ -437,6 +443,12 @@ class InProtocolBase(ProtocolMixin):
         return cls.from_bytes(value)
 
     def datetime_from_unicode_iso(self, cls, string):
+        try:
+            return self._datetime_from_unicode_iso(cls, string)
+        except ValueError:  # field out of range, e.g. minute 60 or offset 99:99
+            raise ValidationError(string)
+
+    def _datetime_from_unicode_iso(self, cls, string):
         astz = self.get_cls_attrs(cls).as_timezone
 
         match = cls._utc_re.match(string)
@@ -496,8 +508,11 @@ class InProtocolBase(ProtocolMixin):
         except ValueError as e:
             match = cls._offset_re.match(string)
             if match:
-                return date(int(match.group('year')),
+                try:
+                    return date(int(match.group('year')),
                             int(match.group('month')), int(match.group('day')))
+                except ValueError:
+                    raise ValidationError(string)
             else:
                 raise ValidationError(string,
                                          "%%r: %s" % repr(e).replace("%", "%%"))
@@ -514,11 +529,13 @@ class InProtocolBase(ProtocolMixin):
         except ValueError as e:
             match = cls._offset_re.match(string)
             if match:
-                return date(int(match.group('year')),
+                try:
+                    return date(int(match.group('year')),
                             int(match.group('month')), int(match.group('day')))
+                except ValueError:
+                    raise ValidationError(string)
             else:
-                # the message from ValueError is quite nice already
-                raise ValidationError(e.message, "%s")
+                raise ValidationError(string)
 
     def duration_from_unicode(self, cls, string):
         match = _duration_re.fullmatch(string)
@@ -539,11 +556,15 @@ class InProtocolBase(ProtocolMixin):
         microseconds = int((seconds - int(seconds)) * 1000000)
         seconds = int(seconds)
 
-        delta = timedelta(days=days, hours=hours, minutes=minutes,
-            seconds=seconds, microseconds=microseconds)
+        try:
+            delta = timedelta(days=days, hours=hours, minutes=minutes,
+                seconds=seconds, microseconds=microseconds)
 
-        if duration['sign'] == "-":
-            delta *= -1
+            if duration['sign'] == "-":
+                delta *= -1
+
+        except OverflowError:  # more than 999999999 days
+            raise ValidationError(string)
 
         return delta
 
